@@ -1151,4 +1151,481 @@ theorem jdScan_unchanged : ∀ (n : Nat) (l : List Tok), l.length = n → ∀ (k
     | [_, _], _ => rw [jdScan_short (by simp)] at hne; exact absurd rfl hne
     | [_, _, _], _ => rw [jdScan_short (by simp)] at hne; exact absurd rfl hne
 
+/-! ## `CommentMasker`: the ignore-marker filter and `Mask::from_iter` -/
+
+/-- `str::contains`: the pattern occurs as a contiguous run -/
+theorem containsSub_iff (pat : List Char) :
+    ∀ (l : List Char), containsSub pat l = true ↔ ∃ pre post, l = pre ++ pat ++ post
+  | [] => by
+    simp only [containsSub, List.isEmpty_iff]
+    constructor
+    · rintro rfl; exact ⟨[], [], rfl⟩
+    · rintro ⟨pre, post, h⟩
+      have := congrArg List.length h
+      simp at this
+      exact List.eq_nil_of_length_eq_zero (by omega)
+  | c :: cs => by
+    simp only [containsSub, Bool.or_eq_true, List.isPrefixOf_iff_prefix, containsSub_iff pat cs]
+    constructor
+    · rintro (⟨t, ht⟩ | ⟨pre, post, h⟩)
+      · exact ⟨[], t, by simpa using ht.symm⟩
+      · exact ⟨c :: pre, post, by simp [h]⟩
+    · rintro ⟨pre, post, h⟩
+      cases pre with
+      | nil => exact Or.inl ⟨post, by simpa using h.symm⟩
+      | cons p pre =>
+        simp only [List.cons_append, List.cons.injEq] at h
+        exact Or.inr ⟨pre, post, h.2⟩
+
+/-- the default ignore condition, read as a statement about the text of the allowed span -/
+theorem ignoreCondition_iff (text : List Char) :
+    ignoreCondition text = true ↔
+      (∃ mk ∈ ignoreMarkers, ∃ pre post, text = pre ++ mk ++ post) ∨ ∃ rest, text = '#' :: '!' :: rest := by
+  simp only [ignoreCondition, Bool.or_eq_true, List.any_eq_true, containsSub_iff,
+    List.isPrefixOf_iff_prefix]
+  constructor
+  · rintro (h | ⟨t, ht⟩)
+    · exact Or.inl h
+    · exact Or.inr ⟨t, by simpa using ht.symm⟩
+  · rintro (h | ⟨t, ht⟩)
+    · exact Or.inl h
+    · exact Or.inr ⟨t, by simp [ht]⟩
+
+/-- on well-formed, in-bounds spans the filter chain never panics and is `List.filter` -/
+theorem ignoreFilter_eq (ign : List Char → Bool) (src : List Char) :
+    ∀ (m : List Span), (∀ s ∈ m, s.start ≤ s.stop ∧ s.stop ≤ src.length) →
+      ignoreFilter ign src m = .ok (m.filter fun s => !ign (slice src s))
+  | [], _ => rfl
+  | s :: rest, h => by
+    have hs := h s (by simp)
+    have ih := ignoreFilter_eq ign src rest (fun x hx => h x (by simp [hx]))
+    simp only [ignoreFilter, getContent_eq s src hs.1 hs.2, ih, bind, Except.bind, pure, Except.pure,
+      List.filter_cons]
+    cases ign (slice src s) <;> simp
+
+theorem spanStartSorted_of_maskOK {n : Nat} : ∀ {m : List Span}, MaskOK n m → SpanStartSorted m
+  | [], _ => trivial
+  | [_], _ => trivial
+  | a :: b :: rest, h => by
+    have hab : a.stop ≤ b.start := (List.pairwise_cons.mp h.2).1 b (by simp)
+    have ha := h.1 a (by simp)
+    exact ⟨by omega, spanStartSorted_of_maskOK h.tail⟩
+
+theorem adjacentDisjoint_of_pairwise : ∀ {m : List Span},
+    m.Pairwise (fun a b => a.stop ≤ b.start) → adjacentDisjoint m = true
+  | [], _ => rfl
+  | [_], _ => rfl
+  | a :: b :: rest, h => by
+    have hab : a.stop ≤ b.start := (List.pairwise_cons.mp h).1 b (by simp)
+    simp [adjacentDisjoint, hab, adjacentDisjoint_of_pairwise (List.pairwise_cons.mp h).2]
+
+/-- `Mask::from_iter` on a list that satisfies the mask invariant: the sort is the identity and the
+assertion holds -/
+theorem maskFromIter_ok {n : Nat} {m : List Span} (h : MaskOK n m) : maskFromIter m = .ok m := by
+  simp [maskFromIter, sortByStart_sorted m (spanStartSorted_of_maskOK h),
+    adjacentDisjoint_of_pairwise h.2]
+
+/-- `Mask::from_iter` asserts exactly that consecutive sorted spans do not overlap -/
+theorem maskFromIter_panics_iff (spans : List Span) :
+    maskFromIter spans = .error .assertFail ↔ adjacentDisjoint (sortByStart spans) = false := by
+  unfold maskFromIter
+  simp only []
+  cases h : adjacentDisjoint (sortByStart spans) <;> simp
+
+theorem maskOK_filter' {n : Nat} {m : List Span} (p : Span → Bool) (h : MaskOK n m) :
+    MaskOK n (m.filter p) :=
+  ⟨fun s hs => h.1 s (List.mem_filter.mp hs).1, h.2.sublist List.filter_sublist⟩
+
+/-- what `CommentMasker::create_mask` does with a mask that satisfies the invariant: exactly the
+spans whose text does not satisfy the ignore condition, in order; no panic -/
+theorem commentFilter_eq (ign : List Char → Bool) (src : List Char) (m : List Span)
+    (h : MaskOK src.length m) :
+    commentFilter ign src m = .ok (m.filter fun s => !ign (slice src s)) := by
+  simp only [commentFilter, ignoreFilter_eq ign src m h.1, bind, Except.bind]
+  exact maskFromIter_ok (maskOK_filter' _ h)
+
+/-! ## span-only faithfulness: kinds may be re-marked `Unlintable`, spans never move -/
+
+/-- `b` is `a`, possibly with its kind replaced by `Unlintable` -/
+def Remark (a b : Tok) : Prop := b.span = a.span ∧ (b.kind = a.kind ∨ b.kind = .unlintable)
+
+theorem Remark.refl (a : Tok) : Remark a a := ⟨rfl, Or.inl rfl⟩
+
+theorem Remark.trans {a b c : Tok} (h1 : Remark a b) (h2 : Remark b c) : Remark a c := by
+  refine ⟨h2.1.trans h1.1, ?_⟩
+  rcases h2.2 with h | h
+  · rcases h1.2 with h' | h'
+    · exact Or.inl (h.trans h')
+    · exact Or.inr (h.trans h')
+  · exact Or.inr h
+
+theorem Remark.unl (a : Tok) : Remark a (unl a) := ⟨rfl, Or.inr rfl⟩
+
+theorem Remark.shift {a b : Tok} (h : Remark a b) (n : Nat) : Remark (a.shift n) (b.shift n) := by
+  obtain ⟨h1, h2⟩ := h
+  exact ⟨by simp [Tok.shift, h1], by simpa [Tok.shift] using h2⟩
+
+/-- a token that was not marked is the original token -/
+theorem Remark.eq_of_not_unlintable {a b : Tok} (h : Remark a b) (hk : b.kind ≠ .unlintable) : b = a := by
+  obtain ⟨h1, h2⟩ := h
+  rcases h2 with h2 | h2
+  · cases a; cases b; simp_all
+  · exact absurd h2 hk
+
+/-- `r` is `t` with some kinds replaced by `Unlintable`: same number of tokens, the same spans in
+the same order -/
+def Remarked (t r : List Tok) : Prop :=
+  r.length = t.length ∧ ∀ (k : Nat) (x y : Tok), t[k]? = some x → r[k]? = some y → Remark x y
+
+theorem Remarked.refl (t : List Tok) : Remarked t t :=
+  ⟨rfl, fun _ x y hx hy => by rw [hx] at hy; cases hy; exact Remark.refl x⟩
+
+theorem Remarked.trans {a b c : List Tok} (h1 : Remarked a b) (h2 : Remarked b c) : Remarked a c := by
+  refine ⟨h2.1.trans h1.1, ?_⟩
+  intro k x z hx hz
+  have hk : k < a.length := (List.getElem?_eq_some_iff.mp hx).1
+  have hb : b[k]? = some (b[k]'(by rw [h1.1]; exact hk)) := List.getElem?_eq_getElem _
+  exact (h1.2 k x _ hx hb).trans (h2.2 k _ z hb hz)
+
+theorem Remarked.nil_iff {r : List Tok} : Remarked [] r ↔ r = [] := by
+  constructor
+  · intro h; exact List.eq_nil_of_length_eq_zero (by simpa using h.1)
+  · rintro rfl; exact Remarked.refl _
+
+theorem Remarked.map_shift {t r : List Tok} (h : Remarked t r) (n : Nat) :
+    Remarked (t.map (·.shift n)) (r.map (·.shift n)) := by
+  refine ⟨by simp [h.1], ?_⟩
+  intro k x y hx hy
+  simp only [List.getElem?_map, Option.map_eq_some_iff] at hx hy
+  obtain ⟨x0, hx0, rfl⟩ := hx
+  obtain ⟨y0, hy0, rfl⟩ := hy
+  exact (h.2 k x0 y0 hx0 hy0).shift n
+
+/-- the list of spans is unchanged -/
+theorem Remarked.spans {t r : List Tok} (h : Remarked t r) : r.map (·.span) = t.map (·.span) := by
+  apply List.ext_getElem?
+  intro k
+  simp only [List.getElem?_map]
+  by_cases hk : k < t.length
+  · have hr : k < r.length := by rw [h.1]; exact hk
+    rw [List.getElem?_eq_getElem hk, List.getElem?_eq_getElem hr]
+    have := h.2 k _ _ (List.getElem?_eq_getElem hk) (List.getElem?_eq_getElem hr)
+    simp [this.1]
+  · have h1 := h.1
+    rw [List.getElem?_eq_none (by omega), List.getElem?_eq_none (by omega)]
+
+/-- every token of `r` is the re-marked image of a token of `t` -/
+theorem Remarked.mem {t r : List Tok} (h : Remarked t r) {y : Tok} (hy : y ∈ r) :
+    ∃ x ∈ t, Remark x y := by
+  obtain ⟨k, hk, rfl⟩ := List.mem_iff_getElem.mp hy
+  have hk' : k < t.length := by rw [← h.1]; exact hk
+  exact ⟨t[k], List.getElem_mem hk',
+    h.2 k _ _ (List.getElem?_eq_getElem hk') (List.getElem?_eq_getElem hk)⟩
+
+/-- a relation between spans that holds pairwise in `t` holds pairwise in `r` -/
+theorem Remarked.pairwise {t r : List Tok} (h : Remarked t r) {R : Span → Span → Prop}
+    (ht : t.Pairwise (fun a b => R a.span b.span)) : r.Pairwise (fun a b => R a.span b.span) := by
+  have h1 : (t.map (·.span)).Pairwise R := List.pairwise_map.mpr ht
+  rw [← h.spans] at h1
+  exact List.pairwise_map.mp h1
+
+theorem markUnlintable_remarked (toks : List Tok) (a b : Nat) :
+    Remarked toks (markUnlintable toks a b) := by
+  refine ⟨markUnlintable_length toks a b, ?_⟩
+  intro k x y hx hy
+  simp only [markUnlintable, List.getElem?_mapIdx, hx, Option.map_some, Option.some.injEq] at hy
+  subst hy
+  split
+  · exact ⟨rfl, Or.inr rfl⟩
+  · exact Remark.refl x
+
+theorem markInlineTags_remarked : ∀ (fuel : Nat) (toks : List Tok) (cursor : Nat) (r : List Tok),
+    markInlineTags fuel toks cursor = .ok r → Remarked toks r := by
+  intro fuel
+  induction fuel with
+  | zero => intro toks cursor r h; simp [markInlineTags] at h
+  | succ fuel ih =>
+    intro toks cursor r h
+    unfold markInlineTags at h
+    split at h
+    · cases h; exact Remarked.refl _
+    · split at h
+      · cases h; exact Remarked.refl _
+      · next c _ =>
+        simp only [bind, Except.bind] at h
+        cases hp : parseInlineTag (toks.length + 1) ((toks.drop c).map (·.kind)) with
+        | error e => rw [hp] at h; cases h
+        | ok p =>
+          rw [hp] at h
+          simp only [] at h
+          cases p with
+          | none => exact ih _ _ _ h
+          | some p => exact (markUnlintable_remarked toks c (c + p)).trans (ih _ _ _ h)
+
+theorem jdScan_remarked (l : List Tok) : Remarked l (jdScan l) := by
+  refine ⟨jdScan_length l, ?_⟩
+  intro k x y hx hy
+  rcases jdScan_get l.length l rfl k with h | h
+  · rw [h, hx] at hy; cases hy; exact Remark.refl x
+  · rw [h, hx] at hy; cases hy; exact Remark.unl x
+
+/-- `Faithful` on spans only: the token's SPAN is the shifted span of a token the inner parser produced
+on a chunk that is the text of the file at that offset; its kind is the inner token's or `Unlintable` -/
+def SpanFaithful (inner : List Char → List Tok) (src : List Char) (toks : List Tok) : Prop :=
+  ∀ tok ∈ toks, IsGlue tok ∨
+    ∃ off chunk t, chunk = (src.drop off).take chunk.length ∧ off + chunk.length ≤ src.length ∧
+      t ∈ inner chunk ∧ Remark (t.shift off) tok
+
+theorem Faithful.spanFaithful {inner src toks} (h : Faithful inner src toks) :
+    SpanFaithful inner src toks := by
+  intro tok ht
+  rcases h tok ht with hg | ⟨off, chunk, t, h1, h2, h3, rfl⟩
+  · exact Or.inl hg
+  · exact Or.inr ⟨off, chunk, t, h1, h2, h3, Remark.refl _⟩
+
+theorem SpanFaithful.nil {inner src} : SpanFaithful inner src [] := by
+  intro t ht; cases ht
+
+theorem SpanFaithful.append {inner src a b} (ha : SpanFaithful inner src a)
+    (hb : SpanFaithful inner src b) : SpanFaithful inner src (a ++ b) := by
+  intro t ht
+  rcases List.mem_append.mp ht with h | h
+  · exact ha t h
+  · exact hb t h
+
+/-- the text of the file under a re-marked token is the text the inner parser saw under the original -/
+theorem spanFaithful_text {src chunk : List Char} {off : Nat} {t tok : Tok}
+    (hr : Remark (t.shift off) tok) (hc : chunk = (src.drop off).take chunk.length)
+    (hb : t.span.stop ≤ chunk.length) : slice src tok.span = slice chunk t.span := by
+  rw [hr.1]; exact faithful_text t hc hb
+
+/-! ### JSDoc -/
+
+/-- the line break `JsDoc::parse` pushes after every line but the last -/
+def nlTok (p : Nat) : Tok := ⟨⟨p, p + 1⟩, .newline 1⟩
+
+/-- `jsdoc.rs:parse_line`: the inner parser's tokens on the stripped line, re-marked, shifted by the
+length of the leader -/
+theorem jsdocLine_spec (isWs : Char → Bool) (inner : List Char → List Tok) (line : List Char) :
+    ∃ a m, withoutInitiators isWs line = .ok a ∧ a.start ≤ a.stop ∧ a.stop ≤ line.length ∧
+      jsdocLine isWs inner line = .ok (m.map (·.shift a.start)) ∧
+      Remarked (if a.isEmpty then [] else inner (slice line a)) m := by
+  obtain ⟨a, ha, h1, h2⟩ := withoutInitiators_ok isWs line
+  simp only [jsdocLine, ha, bind, Except.bind]
+  by_cases he : a.isEmpty = true
+  · rw [if_pos he]
+    exact ⟨a, [], rfl, h1, h2, rfl, by simp [he, Remarked.refl]⟩
+  · rw [if_neg he, getContent_eq a line h1 h2]
+    obtain ⟨t1, ht1, _⟩ := markInlineTags_ok ((inner (slice line a)).length + 1)
+      (inner (slice line a)) 0 (Nat.zero_le _) (by omega)
+    have hr1 := markInlineTags_remarked _ _ _ _ ht1
+    simp only [ht1, pure, Except.pure]
+    refine ⟨a, _, rfl, h1, h2, rfl, ?_⟩
+    simp only [he, Bool.false_eq_true, if_false]
+    split
+    · exact hr1.trans (markUnlintable_remarked _ _ _)
+    · exact hr1
+
+/-- **What `JsDoc::parse` returns, line by line** (`base` = offset of the first line in the file):
+for every line, in order, the inner parser's tokens on the stripped line — same spans, same order,
+kinds kept or replaced by `Unlintable` — shifted by `base + leader`, then (unless it is the last
+line) the line break at `base + len`; the next line starts at `base + len + 1`. -/
+def JsDocLines (isWs : Char → Bool) (inner : List Char → List Tok) :
+    List (List Char) → Nat → List Tok → Prop
+  | [], _, toks => toks = []
+  | line :: rest, base, toks =>
+    ∃ a m r, withoutInitiators isWs line = .ok a ∧
+      Remarked (if a.isEmpty then [] else inner (slice line a)) m ∧
+      JsDocLines isWs inner rest (base + line.length + 1) r ∧
+      toks = m.map (·.shift (base + a.start)) ++
+        (if rest.isEmpty then [] else [nlTok (base + line.length)]) ++ r
+
+theorem jsdocLoop_spec (isWs : Char → Bool) (inner : List Char → List Tok) (src : List Char) :
+    ∀ (lines : List (List Char)) (pre : List Char), lines ≠ [] → src = pre ++ joinNl lines →
+      ∃ toks, jsdocLoop isWs src.length inner pre.length lines = .ok toks ∧
+        JsDocLines isWs inner lines pre.length toks := by
+  intro lines
+  induction lines with
+  | nil => intro _ h; exact absurd rfl h
+  | cons line rest ih =>
+    intro pre _ hsrc
+    obtain ⟨a, m, ha, _, _, hline, hrem⟩ := jsdocLine_spec isWs inner line
+    have hrec : ∃ r, jsdocLoop isWs src.length inner (pre.length + line.length + 1) rest = .ok r ∧
+        JsDocLines isWs inner rest (pre.length + line.length + 1) r := by
+      cases hr : rest with
+      | nil => exact ⟨[], rfl, rfl⟩
+      | cons l2 ls2 =>
+        have hsrc' : src = (pre ++ line ++ ['\n']) ++ joinNl (l2 :: ls2) := by
+          rw [hsrc, hr]; simp [joinNl]
+        obtain ⟨r, h1, h2⟩ := ih (pre ++ line ++ ['\n']) (by rw [hr]; simp) (by rw [← hr] at hsrc'; exact hsrc')
+        have hl : (pre ++ line ++ ['\n']).length = pre.length + line.length + 1 := by simp; omega
+        rw [hl, hr] at h1 h2
+        exact ⟨r, h1, h2⟩
+    obtain ⟨r, hr, hrJ⟩ := hrec
+    have hbrk : (lineBreakTok src.length pre.length line).map (·.shift pre.length) =
+        (if rest.isEmpty then [] else [nlTok (pre.length + line.length)]) := by
+      cases hr' : rest with
+      | nil =>
+        have : src.length = pre.length + line.length := by rw [hsrc, hr']; simp [joinNl]
+        simp [lineBreakTok, this]
+      | cons l2 ls2 =>
+        have : pre.length + line.length < src.length := by rw [hsrc, hr']; simp [joinNl]
+        simp [lineBreakTok, this, nlTok, Tok.shift, Span.pushBy]; omega
+    refine ⟨_, by simp only [jsdocLoop, hline, hr, bind, Except.bind, pure, Except.pure]; rfl, ?_⟩
+    refine ⟨a, m, r, ha, hrem, hrJ, ?_⟩
+    rw [List.map_append, hbrk, List.map_map]
+    congr 2
+    apply List.map_congr_left
+    intro t _
+    simp [shift_shift]
+
+/-- the token-level reading of `JsDocLines` on a file `src = pre ++ lines` -/
+theorem JsDocLines.spanFaithful (isWs : Char → Bool) (inner : List Char → List Tok) (src : List Char) :
+    ∀ (lines : List (List Char)) (pre : List Char) (toks : List Tok), lines ≠ [] →
+      src = pre ++ joinNl lines → JsDocLines isWs inner lines pre.length toks →
+      SpanFaithful inner src toks := by
+  intro lines
+  induction lines with
+  | nil => intro _ _ h; exact absurd rfl h
+  | cons line rest ih =>
+    intro pre toks _ hsrc h
+    obtain ⟨a, m, r, ha, hrem, hrJ, rfl⟩ := h
+    obtain ⟨a', ha', ha1, ha2⟩ := withoutInitiators_ok isWs line
+    rw [ha] at ha'; cases ha'
+    obtain ⟨tail, htail⟩ : ∃ tail, src = pre ++ line ++ tail := by
+      cases hr' : rest with
+      | nil => exact ⟨[], by rw [hsrc, hr']; simp [joinNl]⟩
+      | cons l2 ls2 => exact ⟨'\n' :: joinNl (l2 :: ls2), by rw [hsrc, hr']; simp [joinNl]⟩
+    have hrF : SpanFaithful inner src r := by
+      cases hr' : rest with
+      | nil => rw [hr'] at hrJ; cases hrJ; exact SpanFaithful.nil
+      | cons l2 ls2 =>
+        have hl : (pre ++ line ++ ['\n']).length = pre.length + line.length + 1 := by simp; omega
+        refine ih (pre ++ line ++ ['\n']) r (by rw [hr']; simp) (by rw [hsrc, hr']; simp [joinNl]) ?_
+        rw [hl]; exact hrJ
+    refine SpanFaithful.append (SpanFaithful.append ?_ ?_) hrF
+    · intro tok ht
+      obtain ⟨y, hy, rfl⟩ := List.mem_map.mp ht
+      obtain ⟨x, hx, hxy⟩ := hrem.mem hy
+      by_cases he : a.isEmpty = true
+      · simp [he] at hx
+      · simp only [he, Bool.false_eq_true, if_false] at hx
+        refine Or.inr ⟨pre.length + a.start, slice line a, x, ?_, ?_, hx, hxy.shift _⟩
+        · rw [htail]; exact chunk_located pre line tail a ha1 ha2
+        · rw [slice_length a line ha2, htail]; simp; omega
+    · intro tok ht
+      split at ht
+      · cases ht
+      · simp at ht; subst ht; exact Or.inl (Or.inr rfl)
+
+/-- … and its bounds: under `InnerOK` every token lies inside `[base, base + |lines|]`, in order -/
+theorem JsDocLines.inbounds (isWs : Char → Bool) (inner : List Char → List Tok) (hin : InnerOK inner) :
+    ∀ (lines : List (List Char)) (base : Nat) (toks : List Tok),
+      JsDocLines isWs inner lines base toks →
+      (∀ t ∈ toks, base ≤ t.span.start ∧ t.span.start ≤ t.span.stop ∧
+        t.span.stop ≤ base + (joinNl lines).length) ∧
+      toks.Pairwise (fun a b => a.span.stop ≤ b.span.start) := by
+  intro lines
+  induction lines with
+  | nil => intro base toks h; cases h; exact ⟨by simp, List.Pairwise.nil⟩
+  | cons line rest ih =>
+    intro base toks h
+    obtain ⟨a, m, r, ha, hrem, hrJ, rfl⟩ := h
+    obtain ⟨a', ha', ha1, ha2⟩ := withoutInitiators_ok isWs line
+    rw [ha] at ha'; cases ha'
+    obtain ⟨hrB, hrP⟩ := ih _ _ hrJ
+    -- the re-marked inner tokens of this line
+    have hmB : ∀ y ∈ m, y.span.start ≤ y.span.stop ∧ y.span.stop ≤ a.stop - a.start := by
+      intro y hy
+      obtain ⟨x, hx, hxy⟩ := hrem.mem hy
+      by_cases he : a.isEmpty = true
+      · simp [he] at hx
+      · simp only [he, Bool.false_eq_true, if_false] at hx
+        have := (hin (slice line a)).1 x hx
+        rw [slice_length a line ha2] at this
+        rw [hxy.1]; exact this
+    have hmP : m.Pairwise (fun x y => x.span.stop ≤ y.span.start) := by
+      apply hrem.pairwise (R := fun x y => x.stop ≤ y.start)
+      by_cases he : a.isEmpty = true
+      · simp [he]
+      · simp only [he, Bool.false_eq_true, if_false]; exact (hin (slice line a)).2
+    have hlen : (joinNl (line :: rest)).length =
+        line.length + (if rest.isEmpty then 0 else 1 + (joinNl rest).length) := by
+      cases rest with
+      | nil => simp [joinNl]
+      | cons l2 ls2 => simp [joinNl]; omega
+    rw [hlen]
+    refine ⟨?_, ?_⟩
+    · intro t ht
+      simp only [List.mem_append, List.mem_map] at ht
+      rcases ht with (⟨y, hy, rfl⟩ | ht) | ht
+      · have := hmB y hy
+        simp [Tok.shift, Span.pushBy]; omega
+      · cases hr' : rest with
+        | nil => simp [hr'] at ht
+        | cons l2 ls2 =>
+          simp [hr'] at ht; subst ht
+          simp [nlTok]; omega
+      · have := hrB t ht
+        cases hr' : rest with
+        | nil => rw [hr'] at hrJ; cases hrJ; cases ht
+        | cons l2 ls2 => simp; rw [hr'] at this; omega
+    · refine List.pairwise_append.mpr ⟨List.pairwise_append.mpr ⟨?_, ?_, ?_⟩, hrP, ?_⟩
+      · exact List.Pairwise.map _ (fun x y h => by simp [Tok.shift, Span.pushBy]; omega) hmP
+      · split <;> simp
+      · intro x hx y hy
+        obtain ⟨x0, hx0, rfl⟩ := List.mem_map.mp hx
+        have := hmB x0 hx0
+        split at hy
+        · cases hy
+        · simp at hy; subst hy
+          simp [nlTok, Tok.shift, Span.pushBy]; omega
+      · intro x hx y hy
+        have hy' := hrB y hy
+        rcases List.mem_append.mp hx with hx | hx
+        · obtain ⟨x0, hx0, rfl⟩ := List.mem_map.mp hx
+          have := hmB x0 hx0
+          simp [Tok.shift, Span.pushBy]; omega
+        · split at hx
+          · cases hx
+          · simp at hx; subst hx
+            simp [nlTok]; omega
+
+/-! ### JavaDoc -/
+
+/-- leader removal only drops tokens -/
+theorem jdStrip_sublist : ∀ (b : Bool) (l : List Tok), (jdStrip b l).Sublist l
+  | _, [] => List.Sublist.slnil
+  | b, t :: ts => by
+    unfold jdStrip
+    split
+    · exact (jdStrip_sublist true ts).cons t
+    · exact (jdStrip_sublist _ ts).cons_cons t
+
+/-- … and only `*` and space tokens (those that follow a line break) -/
+theorem jdStrip_keeps : ∀ (b : Bool) (l : List Tok) (t : Tok), t ∈ l →
+    isStarKind t.kind = false → t.kind.isSpace = false → t ∈ jdStrip b l
+  | _, [], _, h, _, _ => by cases h
+  | b, x :: xs, t, h, h1, h2 => by
+    unfold jdStrip
+    rcases List.mem_cons.mp h with rfl | h
+    · simp [h1, h2]
+    · split
+      · exact jdStrip_keeps true xs t h h1 h2
+      · exact List.mem_cons_of_mem _ (jdStrip_keeps _ xs t h h1 h2)
+
+/-- `JavaDoc::parse`: the HTML parser's tokens on the comment without its delimiters, leaders dropped,
+shifted by the length of the opening delimiter, re-marked -/
+theorem javadocParse_spec (isWs : Char → Bool) (src : List Char) (inner : List Char → List Tok) :
+    ∃ a r, withoutInitiators isWs src = .ok a ∧ a.start ≤ a.stop ∧ a.stop ≤ src.length ∧
+      javadocParse isWs src inner = .ok r ∧
+      Remarked ((jdStrip false (inner (slice src a))).map (·.shift a.start)) r := by
+  obtain ⟨a, ha, h1, h2⟩ := withoutInitiators_ok isWs src
+  obtain ⟨t2, ht2, _⟩ := markInlineTags_ok
+    (((jdStrip false (inner (slice src a))).map (·.shift a.start)).length + 1)
+    ((jdStrip false (inner (slice src a))).map (·.shift a.start)) 0 (Nat.zero_le _) (by omega)
+  refine ⟨a, jdScan t2, ha, h1, h2, ?_, ?_⟩
+  · simp only [javadocParse, ha, bind, Except.bind, getContent_eq a src h1 h2, ht2, javadocMark_eq]
+  · exact (markInlineTags_remarked _ _ _ _ ht2).trans (jdScan_remarked t2)
+
 end Harper
